@@ -8,6 +8,11 @@
                   configuration of the run (or none)
      top/repo-b   sibling repository whose name has the prefix "repo" (a.yml), constant config CfgB
      top/other    unrelated directory: x.yml (outside every repository), the -config-file target
+     top/link     symbolic link -> top/repo (an alias of the repository root); alt = symbolic link -> top (an
+                  alias of a parent of it); top/repo/.github/workflows/l.yml = symbolic link -> a.yml.
+                  A *named* path may go through the aliases, Canon gives the real directories.  The aliases
+                  are siblings of their targets, so lexical and physical ".." agree.  The file a run names is
+                  Canon of its named path (the last component, e.g. l.yml, is a name of its own).
    Ordinary workflow files have the same N diagnostics, message ids 1..N in unfiltered output order;
    y.yml is not YAML (its only diagnostic, id N+1, is the syntax error: nothing is visited), p.yml has
    diagnostics of the workflow parser only (ids N+2, N+3).
@@ -37,7 +42,8 @@ CONSTANTS N,          \* number of diagnostics per ordinary workflow file
           CfgPats,    \* patterns usable in a `paths` entry
           GlobNames,  \* names of glob forms (keys of Globs) to try
           MaxEntries, \* max number of `paths` entries
-          CwdKinds, Spellings, ArgNames, CfgSrcs, CfgFaults, FlagFaults
+          CwdKinds, Spellings, ArgNames, CfgSrcs, CfgFaults, FlagFaults,
+          Vias, CwdVias   \* through which alias the files / the cwd are named: "real", "link", "plink"
 
 Range(f) == {f[x] : x \in DOMAIN f}
 Ids == 1 .. N
@@ -64,14 +70,15 @@ FB == RepoB \o WF \o <<"a.yml">>
 FO == Other \o <<"x.yml">>
 FY == RepoA \o WF \o <<"y.yml">>              \* not YAML
 FP == RepoA \o WF \o <<"p.yml">>              \* parser diagnostics only
+FL == RepoA \o WF \o <<"l.yml">>              \* symbolic link -> a.yml
 FM == RepoA \o WF \o <<"missing.yml">>        \* does not exist
 FD == RepoA \o WF \o <<"sub">>                \* a directory
-Readable == {FA, FS, FB, FO, FY, FP}
-YmlNames == {"a.yml", "b.yml", "x.yml", "missing.yml", "y.yml", "p.yml"}
+Readable == {FA, FS, FB, FO, FY, FP, FL}
+YmlNames == {"a.yml", "b.yml", "x.yml", "missing.yml", "y.yml", "p.yml", "l.yml"}
 \* the unfiltered diagnostics of a file
 MsgsOf(f) == IF f = FY THEN <<N + 1>> ELSE IF f = FP THEN <<N + 2, N + 3>> ELSE AllIds
 \* the workflow files of a repository in the order LintDir visits them (sorted)
-WorkflowFiles(r) == IF r = RepoA THEN <<FA, FP, FS, FY>> ELSE IF r = RepoB THEN <<FB>> ELSE <<>>
+WorkflowFiles(r) == IF r = RepoA THEN <<FA, FL, FP, FS, FY>> ELSE IF r = RepoB THEN <<FB>> ELSE <<>>
 \* directory names d1, d2 with d1 a proper string prefix of d2 (TLC has no string prefix test)
 NamePrefix == {<<"repo", "repo-b">>}
 
@@ -79,9 +86,22 @@ CwdOf == [root |-> RepoA, parent |-> Top, nested |-> RepoA \o <<".github">>, unr
           workflows |-> RepoA \o WF, rootb |-> RepoB]
 ArgLists == [a |-> <<FA>>, s |-> <<FS>>, b |-> <<FB>>, o |-> <<FO>>, as |-> <<FA, FS>>, ab |-> <<FA, FB>>,
              ba |-> <<FB, FA>>, sa |-> <<FS, FA>>, none |-> <<>>, m |-> <<FM>>, am |-> <<FA, FM>>, d |-> <<FD>>,
-             ao |-> <<FA, FO>>, y |-> <<FY>>, p |-> <<FP>>, ay |-> <<FA, FY>>, ya |-> <<FY, FA>>]
+             ao |-> <<FA, FO>>, y |-> <<FY>>, p |-> <<FP>>, ay |-> <<FA, FY>>, ya |-> <<FY, FA>>,
+             l |-> <<FL>>, al |-> <<FA, FL>>]
 
 IsPrefix(p, q) == Len(p) <= Len(q) /\ SubSeq(q, 1, Len(p)) = p
+\* directory aliases (symbolic links)
+LinkA == <<"top", "link">>        \* -> RepoA
+AltTop == <<"alt">>               \* -> Top
+RECURSIVE Canon(_)
+Canon(p) == IF IsPrefix(LinkA, p) THEN Canon(RepoA \o SubSeq(p, Len(LinkA) + 1, Len(p)))
+            ELSE IF IsPrefix(AltTop, p) THEN Canon(Top \o SubSeq(p, Len(AltTop) + 1, Len(p)))
+            ELSE p
+\* the name of the real path p through an alias (unchanged when the alias does not lead to p)
+NameVia(p, via) ==
+  CASE via = "link" /\ IsPrefix(RepoA, p) -> LinkA \o SubSeq(p, Len(RepoA) + 1, Len(p))
+    [] via = "plink" /\ IsPrefix(Top, p) -> AltTop \o SubSeq(p, Len(Top) + 1, Len(p))
+    [] OTHER -> p
 RECURSIVE Common(_, _)
 Common(p, q) == IF p = <<>> \/ q = <<>> THEN 0
                 ELSE IF Head(p) = Head(q) THEN 1 + Common(Tail(p), Tail(q)) ELSE 0
@@ -115,12 +135,13 @@ Globs == [exact      |-> <<L(".github"), L("workflows"), L("a.yml")>>,
           deepext    |-> <<Deep, ExtSeg>>,
           anydir     |-> <<AnySeg, L("workflows"), ExtSeg>>,
           nomatch    |-> <<L(".github"), L("workflows"), L("zzz.yml")>>,
+          lexact     |-> <<L(".github"), L("workflows"), L("l.yml")>>,
           parentform |-> <<L("repo"), L(".github"), L("workflows"), L("a.yml")>>,
           nestedform |-> <<L("workflows"), L("a.yml")>>,
           bareform   |-> <<L("a.yml")>>,
           dotform    |-> <<L("."), L(".github"), L("workflows"), L("a.yml")>>]
 GlobOrder == <<"exact", "subexact", "deepname", "dirdeep", "starext", "deepext", "anydir", "nomatch",
-               "parentform", "nestedform", "bareform", "dotform">>
+               "parentform", "nestedform", "bareform", "dotform", "lexact">>
 GlobIdx(g) == CHOOSE i \in DOMAIN GlobOrder : GlobOrder[i] = g
 SegText(h) == CASE h.k = "lit" -> h.v [] h.k = "ext" -> "*" \o h.v [] h.k = "any" -> "*" [] h.k = "deep" -> "**"
 RECURSIVE GlobText(_)
@@ -145,9 +166,11 @@ NoCfg == [k |-> "none", src |-> "repo", entries |-> <<>>]
 CfgB == [k |-> "paths", src |-> "repo", entries |-> <<[glob |-> "exact", pats |-> <<P({N})>>]>>]
 CfgBroken(c) == c.k \in {"badyaml", "badregex", "badglob"}
 
-(* A run: [cwdk, sp, argn, cli (sequence of patterns), cfg, ff (flag fault)] *)
-Cwd(run) == CwdOf[run.cwdk]
-Args(run) == [i \in DOMAIN ArgLists[run.argn] |-> Spell(Cwd(run), ArgLists[run.argn][i], run.sp)]
+(* A run: [cwdk, sp, argn, via, cvia, cli (sequence of patterns), cfg, ff (flag fault)] *)
+Cwd(run) == CwdOf[run.cwdk]                       \* the real directory
+NCwd(run) == NameVia(Cwd(run), run.cvia)          \* as the shell names it ($PWD)
+Args(run) == [i \in DOMAIN ArgLists[run.argn] |->
+                Spell(NCwd(run), NameVia(ArgLists[run.argn][i], run.via), run.sp)]
 RepoMode(run) == ArgLists[run.argn] = <<>>
 
 ----------------------------------------------------------------------------
@@ -160,7 +183,7 @@ RepoCfg(run, r) == IF r = RepoA THEN (IF run.cfg.src = "repo" THEN run.cfg ELSE 
 CfgFor(run, r) == IF run.cfg.src = "flag" THEN run.cfg ELSE RepoCfg(run, r)
 \* the files named by the run, in the order they are linted
 Named(run) == IF RepoMode(run) THEN WorkflowFiles(Attribute(Cwd(run)))
-              ELSE [i \in DOMAIN Args(run) |-> Resolve(Cwd(run), Args(run)[i])]
+              ELSE [i \in DOMAIN Args(run) |-> Canon(Resolve(NCwd(run), Args(run)[i]))]
 EntryPats(c, rel) == UNION {Range(c.entries[i].pats) :
                               i \in {j \in DOMAIN c.entries : GMatch(Globs[c.entries[j].glob], rel)}}
 Applicable(run, f) == Range(run.cli) \cup EntryPats(CfgFor(run, Attribute(f)), RootRel(f))
@@ -192,26 +215,35 @@ StrPrefixPath(r, p) ==
        /\ <<r[Len(r)], p[Len(r)]>> \in NamePrefix
 Knows(r, p, strpre) == IF strpre THEN StrPrefixPath(r, p) ELSE IsPrefix(r, p)
 \* Projects.At over the arguments in order; known = sequence of cached roots. Result: sequence of roots
+\* findProject: walks up the absolute path as named (os.Stat follows the links): the nearest ancestor
+\* that is a repository root, under the name it has in that path
+LexRoot(p) == LET ks == {k \in 0 .. Len(p) : Canon(SubSeq(p, 1, k)) \in Repos} IN
+              IF ks = {} THEN NoRepo ELSE SubSeq(p, 1, CHOOSE k \in ks : \A k2 \in ks : k2 <= k)
+\* the files of the run under the names the code sees (absolute, lexically cleaned)
+NamedP(run) == IF RepoMode(run)
+                 THEN [i \in DOMAIN Named(run) |-> LexRoot(NCwd(run)) \o RootRel(Named(run)[i])]
+                 ELSE [i \in DOMAIN Args(run) |-> Resolve(NCwd(run), Args(run)[i])]
 RECURSIVE OpAttrSeq(_, _, _, _)
 OpAttrSeq(fs, i, known, strpre) ==
   IF i > Len(fs) THEN <<>>
   ELSE LET hit == {j \in DOMAIN known : Knows(known[j], fs[i], strpre)} IN
        IF hit # {} THEN <<known[CHOOSE j \in hit : \A j2 \in hit : j <= j2]>> \o OpAttrSeq(fs, i + 1, known, strpre)
-       ELSE LET r == Attribute(fs[i]) IN
+       ELSE LET r == LexRoot(fs[i]) IN
             <<r>> \o OpAttrSeq(fs, i + 1, IF r = NoRepo THEN known ELSE Append(known, r), strpre)
-OpAttrP(run, strpre) == IF RepoMode(run) THEN [i \in DOMAIN Named(run) |-> Attribute(Cwd(run))]
-                        ELSE OpAttrSeq(Named(run), 1, <<>>, strpre)
+\* the (named) project roots the files are attributed to
+OpAttrP(run, strpre) == IF RepoMode(run) THEN [i \in DOMAIN Named(run) |-> LexRoot(NCwd(run))]
+                        ELSE OpAttrSeq(NamedP(run), 1, <<>>, strpre)
 OpAttr(run) == OpAttrP(run, FALSE)
 \* the path that is printed: Rel(cwd, path) when that works, else the argument as spelled
-OpDisplay(run, i) == IF RepoMode(run) THEN Rel(Cwd(run), Named(run)[i])
-                     ELSE IF Args(run)[i].abs THEN Rel(Cwd(run), Named(run)[i]) ELSE Args(run)[i].segs
+OpDisplay(run, i) == IF RepoMode(run) THEN Rel(NCwd(run), NamedP(run)[i])
+                     ELSE IF Args(run)[i].abs THEN Rel(NCwd(run), NamedP(run)[i]) ELSE Args(run)[i].segs
 \* pathFromProjectRoot: the path handed to PathConfigs = the file relative to the root of the project it
 \* was attributed to; the displayed path when there is no project or the file is outside of it
 OpCfgPath(run, i, root) ==
-  LET f == Named(run)[i] IN
+  LET f == NamedP(run)[i] IN
   IF root # NoRepo /\ IsPrefix(root, f) THEN SubSeq(f, Len(root) + 1, Len(f)) ELSE OpDisplay(run, i)
 OpOutWith(run, i, root, cpath) ==
-  FilterBy(MsgsOf(Named(run)[i]), Range(run.cli) \cup EntryPats(CfgFor(run, root), cpath))
+  FilterBy(MsgsOf(Named(run)[i]), Range(run.cli) \cup EntryPats(CfgFor(run, Canon(root)), cpath))
 OpOut(run, i) == OpOutWith(run, i, OpAttr(run)[i], OpCfgPath(run, i, OpAttr(run)[i]))
 OpRemaining(run) == \E i \in DOMAIN Named(run) : OpOut(run, i) # <<>>
 OpExits(run) == CASE run.ff \in {"unknown", "badbool"} -> {2}
@@ -219,14 +251,17 @@ OpExits(run) == CASE run.ff \in {"unknown", "badbool"} -> {2}
                   [] OTHER -> IF Fatal(run) THEN {3} ELSE IF OpRemaining(run) THEN {1} ELSE {0}
 
 (* Named deviations - NOT the code (disabled).  They are kept (a) as a vacuity guard: TLC must find a run
-   where each of them differs from the property (Filter_dev.cfg / Filter_dev2.cfg), and (b) so that the
+   where each of them differs from the property (Filter_dev.cfg / _dev2 / _dev3), and (b) so that the
    check can name the site precisely if the real code ever falls back to one of them.
    DevCwd : before "fix: `paths` globs of the config are matched against the path relative to the project
             root" the glob was matched against the displayed path (cwd-relative, or as spelled).
    DevPre : before "fix: Project.Knows no longer claims files of sibling directories sharing a name
-            prefix" the project cache was searched with strings.HasPrefix. *)
+            prefix" the project cache was searched with strings.HasPrefix.
+   DevLnk : the project root is the physical directory (symbolic links resolved) while the file keeps the
+            name it was given: reached through an alias, the file looks outside of its project. *)
 DevCwdOut(run, i) == OpOutWith(run, i, OpAttr(run)[i], OpDisplay(run, i))
 DevPreOut(run, i) == LET root == OpAttrP(run, TRUE)[i] IN OpOutWith(run, i, root, OpCfgPath(run, i, root))
+DevLnkOut(run, i) == LET root == Canon(OpAttr(run)[i]) IN OpOutWith(run, i, root, OpCfgPath(run, i, root))
 \* which form of the DevCwd deviation the i-th file would show
 Tags(run, i) ==
   LET f == Named(run)[i] IN
@@ -239,7 +274,7 @@ VARIABLES run, stage, tc
 vars == <<run, stage, tc>>
 
 FileName(f) == CASE f = FA -> "a" [] f = FS -> "s" [] f = FB -> "b" [] f = FO -> "o" [] f = FM -> "m" [] f = FD -> "d"
-                  [] f = FY -> "y" [] f = FP -> "p"
+                  [] f = FY -> "y" [] f = FP -> "p" [] f = FL -> "l"
 CfgJson(c) == [k |-> c.k, src |-> c.src,
                entries |-> [i \in DOMAIN c.entries |->
                               [glob |-> c.entries[i].glob, text |-> GlobText(Globs[c.entries[i].glob]),
@@ -248,16 +283,17 @@ Vector(r, st) ==
   IF st # "done" THEN ToJson([final |-> FALSE]) ELSE
   LET fs == Named(r)
       lint == r.ff = "none" /\ ~Fatal(r) IN
-  ToJson([final |-> st = "done", cwdk |-> r.cwdk, cwd |-> Cwd(r), sp |-> r.sp, argn |-> r.argn,
+  ToJson([final |-> st = "done", cwdk |-> r.cwdk, cwd |-> NCwd(r), via |-> r.via, cvia |-> r.cvia, sp |-> r.sp, argn |-> r.argn,
           args |-> Args(r), cli |-> r.cli, cfg |-> CfgJson(r.cfg), cfgb |-> CfgJson(CfgB), ff |-> r.ff,
           lint |-> lint, exits |-> DeclExits(r), opexits |-> OpExits(r),
           files |-> IF lint THEN [i \in DOMAIN fs |->
                        [name |-> FileName(fs[i]), path |-> fs[i], all |-> MsgsOf(fs[i]), exp |-> DeclOut(r, fs[i]), op |-> OpOut(r, i),
-                        devcwd |-> DevCwdOut(r, i), devpre |-> DevPreOut(r, i),
+                        devcwd |-> DevCwdOut(r, i), devpre |-> DevPreOut(r, i), devlnk |-> DevLnkOut(r, i),
+                        npath |-> NamedP(r)[i],
                         tags |-> Tags(r, i), rootrel |-> RootRel(fs[i]), display |-> OpDisplay(r, i)]]
                     ELSE <<>>])
 
-R0 == [cwdk |-> "root", sp |-> "rel", argn |-> "a", cli |-> <<>>, cfg |-> NoCfg, ff |-> "none"]
+R0 == [cwdk |-> "root", sp |-> "rel", argn |-> "a", via |-> "real", cvia |-> "real", cli |-> <<>>, cfg |-> NoCfg, ff |-> "none"]
 Init == run = R0 /\ stage = "args" /\ tc = Vector(R0, "args")
 
 SetArgs == /\ stage = "args"
@@ -268,7 +304,15 @@ SetCwd == /\ stage = "cwd"
           /\ stage' = "sp"
 SetSp == /\ stage = "sp"
          /\ \E s \in Spellings : (RepoMode(run) => s = "rel") /\ run' = [run EXCEPT !.sp = s]
-         /\ stage' = "fault"
+         /\ stage' = "via"
+\* through which alias the files and the cwd are named (only aliases that lead there)
+SetVia == /\ stage = "via"
+          /\ \E v \in Vias, c \in CwdVias :
+               /\ RepoMode(run) => v = "real"
+               /\ v # "real" => \E i \in DOMAIN ArgLists[run.argn] : NameVia(ArgLists[run.argn][i], v) # ArgLists[run.argn][i]
+               /\ c # "real" => NameVia(Cwd(run), c) # Cwd(run)
+               /\ run' = [run EXCEPT !.via = v, !.cvia = c]
+          /\ stage' = "fault"
 \* faults are combined with the default filter settings only
 SetFault == /\ stage = "fault"
             /\ \/ run' = run /\ stage' = (IF Range(ArgLists[run.argn]) \subseteq Readable THEN "src" ELSE "done")
@@ -308,7 +352,7 @@ AddCli == /\ stage = "cli"
           /\ stage' = "cli"
 EndCli == /\ stage = "cli" /\ run' = run /\ stage' = "done"
 
-Next == /\ (SetArgs \/ SetCwd \/ SetSp \/ SetFault \/ SetSrc \/ AddEntry \/ AddEntry2 \/ EndEntries \/ AddCli \/ EndCli)
+Next == /\ (SetArgs \/ SetCwd \/ SetSp \/ SetVia \/ SetFault \/ SetSrc \/ AddEntry \/ AddEntry2 \/ EndEntries \/ AddCli \/ EndCli)
         /\ tc' = Vector(run', stage')
 Spec == Init /\ [][Next]_vars
 
@@ -331,16 +375,20 @@ Composes ==
 \* spelled arguments name the intended files
 SpellResolves ==
   stage = "cwd" =>
-  \A c \in DOMAIN CwdOf : \A s \in {"abs", "rel", "dot"} : \A i \in DOMAIN ArgLists[run.argn] :
-    Resolve(CwdOf[c], Spell(CwdOf[c], ArgLists[run.argn][i], s)) = ArgLists[run.argn][i]
-\* the declarative result does not depend on cwd and spelling
+  \A c \in DOMAIN CwdOf : \A s \in {"abs", "rel", "dot"} : \A v, cv \in {"real", "link", "plink"} :
+    \A i \in DOMAIN ArgLists[run.argn] :
+      LET nc == NameVia(CwdOf[c], cv)
+          nf == NameVia(ArgLists[run.argn][i], v) IN
+      /\ Canon(nc) = CwdOf[c] /\ Canon(nf) = ArgLists[run.argn][i]
+      /\ Resolve(nc, Spell(nc, nf, s)) = nf
+\* the declarative result does not depend on cwd, spelling and the aliases the paths go through: it is the
+\* result of the reference run (repository root, absolute, real names) on the same files
 CwdIndependent ==
   (stage = "done" /\ ~RepoMode(run)) =>
-    \A c \in DOMAIN CwdOf : \A s \in {"abs", "rel", "dot"} :
-      LET r2 == [run EXCEPT !.cwdk = c, !.sp = s] IN
-      /\ Named(r2) = Named(run)
-      /\ \A i \in DOMAIN Named(run) : DeclOut(r2, Named(r2)[i]) = DeclOut(run, Named(run)[i])
-      /\ DeclExits(r2) = DeclExits(run)
+    LET r0 == [run EXCEPT !.cwdk = "root", !.sp = "abs", !.via = "real", !.cvia = "real"] IN
+    /\ Named(r0) = Named(run)
+    /\ \A i \in DOMAIN Named(run) : DeclOut(r0, Named(r0)[i]) = DeclOut(run, Named(run)[i])
+    /\ DeclExits(r0) = DeclExits(run)
 ExitTable ==
   /\ DeclExits(run) \subseteq {0, 1, 2, 3} /\ DeclExits(run) # {}
   /\ run.ff \in {"unknown", "badbool"} => DeclExits(run) = {2}
@@ -354,7 +402,8 @@ OpEqualsDecl ==
 \* the old cwd-relative matching agreed with the property from the repository root on plain/absolute
 \* spellings of files of that repository (why the test suite never saw it)
 DevCwdAgreesAtRoot ==
-  (Cwd(run) = RepoA /\ run.sp # "dot" /\ \A i \in DOMAIN Named(run) : Attribute(Named(run)[i]) = RepoA) =>
+  (Cwd(run) = RepoA /\ run.sp # "dot" /\ run.via = run.cvia
+     /\ \A i \in DOMAIN Named(run) : Attribute(Named(run)[i]) = RepoA) =>
     \A i \in DOMAIN Named(run) : DevCwdOut(run, i) = DeclOut(run, Named(run)[i])
 TagsExplain ==
   \A i \in DOMAIN Named(run) : (Tags(run, i) = {}) <=> DevCwdOut(run, i) = DeclOut(run, Named(run)[i])
@@ -363,4 +412,9 @@ GlobTexts == \A g \in GlobNames : g \in DOMAIN Globs /\ g \in Range(GlobOrder)
 \* deviations inside the explored universe
 DevCwdEqualsDecl == \A i \in DOMAIN Named(run) : DevCwdOut(run, i) = DeclOut(run, Named(run)[i])
 DevPreEqualsDecl == \A i \in DOMAIN Named(run) : DevPreOut(run, i) = DeclOut(run, Named(run)[i])
+DevLnkEqualsDecl == \A i \in DOMAIN Named(run) : DevLnkOut(run, i) = DeclOut(run, Named(run)[i])
+\* the names the code sees are names of the files the run is about
+NamesConsistent ==
+  /\ Canon(NCwd(run)) = Cwd(run)
+  /\ \A i \in DOMAIN Named(run) : Canon(NamedP(run)[i]) = Named(run)[i]
 =============================================================================
